@@ -102,7 +102,7 @@ def program(kind, d):
             ("limit", lambda q: q.limit(3)),
         ]
         need = {0}
-    else:  # INSERT ... SELECT
+    elif kind == 5:  # INSERT ... SELECT
         base = lambda: Q.into(t)  # noqa: E731
         calls = [
             ("columns", lambda q: q.columns("a")),
@@ -112,10 +112,22 @@ def program(kind, d):
             ("orderby", lambda q: q.orderby(u.a)),
         ]
         need = {2}
+    elif kind == 6:  # INSERT ... SELECT started from an empty builder: from_() and into() must commute
+        base = lambda: Q._builder()  # noqa: E731
+        calls = [
+            ("into_select", lambda q: q.into(t)),          # (into before select: same group => order kept)
+            ("from", lambda q: q.from_(u)),
+            ("into_select", lambda q: q.select(u.a)),
+            ("orderby", lambda q: q.orderby(u.a)),
+            ("distinct", lambda q: q.distinct()),
+        ]
+        need = {0, 1, 2}
+    else:
+        raise AssertionError(kind)
     return base, calls, need
 
 
-NKIND = 6
+NKIND = 7
 
 
 def orderings(n):
@@ -207,6 +219,8 @@ def well_formed(sql, kind, d):
         order = ["DELETE", "FROM", "JOIN", "WHERE", "ORDER BY", "P"]
     else:
         order = ["INSERT", "INTO", "SELECT", "FROM", "JOIN", "WHERE", "ORDER BY", "P"]
+    if kind == 6:
+        kind = 5
     last = -1
     seen = set()
     for kw in kws:
@@ -235,7 +249,7 @@ def well_formed(sql, kind, d):
     bounds={"quick": {"D2": 0}, "thorough": {"D2": 14}},
     timeout={"quick": 300, "thorough": 2400},
     witness=[dict(kind=0, d=2, drop1=0, drop2=0, o=3), dict(kind=2, d=1, drop1=3, drop2=0, o=1)],
-    doc="6 statement kinds x 6 dialect classes; selectors: up to two optional calls dropped, ordering = identity / "
+    doc="7 statement programs x 6 dialect classes; selectors: up to two optional calls dropped, ordering = identity / "
         "reversal / every rotation / every transposition; every ordering renders the canonical SQL, which is well-formed",
 )
 def c13_orders(kind: int, d: int, drop1: int, drop2: int, o: int) -> int:
